@@ -309,7 +309,8 @@ def r20_5(ctx):
     # hop 1: use_theme -> ThemeContext(...)
     ctor = [x for x in walk_local(use.node) if isinstance(x, ast.Call) and call_name(x) == "ThemeContext"]
     v = passed(ctor[0], init, "inherit") if ctor else None
-    ctx.check(v is not None and norm(v) == "inherit", use.fq, short(ctor[0]) if ctor else "?", use.where, "use_theme passes inherit to ThemeContext", "Console.use_theme does not pass its `inherit` argument to ThemeContext")
+    from ..astutil import inline as _inl205a, single_defs as _sdf205a
+    ctx.check(v is not None and norm(_inl205a(v, {k_: v_ for k_, v_ in _sdf205a(use.node).items() if k_ != "inherit"})) == "inherit", use.fq, short(ctor[0]) if ctor else "?", use.where, "use_theme passes inherit to ThemeContext", "Console.use_theme does not pass its `inherit` argument to ThemeContext")
     # hop 2: __init__ stores it
     slot = None
     for n in walk_local(init.node):
@@ -319,7 +320,8 @@ def r20_5(ctx):
     # hop 3: __enter__ forwards it
     if pushes:
         v = passed(pushes[0], cpush, "inherit")
-        ok = v is not None and slot is not None and norm(v) == f"self.{slot}"
+        from ..astutil import inline as _inl205, single_defs as _sdf205
+        ok = v is not None and slot is not None and norm(_inl205(v, _sdf205(en.node))) == f"self.{slot}"
         ctx.check(ok, en.fq, short(pushes[0]), f"{en.module.relpath}:{pushes[0].lineno}", "__enter__ forwards the stored inherit option to push_theme",
                   f"ThemeContext.__enter__ calls `{short(pushes[0])}` without forwarding the stored `inherit` option: use_theme(theme, inherit=False) still inherits every style of the previous theme")
     # hop 4: Console.push_theme -> ThemeStack.push_theme
@@ -374,16 +376,57 @@ def r20_6(ctx):
         if concat_parts(elt_) in ([("expr", n_), " = ", ("expr", s_)], [("expr", n_), " = ", ("expr", f"str({s_})")]):
             item_ok = True
     ctx.check(tmpl_ok and item_ok, cfgp.fq, "config template", cfgp.where, "config writes a [styles] section of `name = style` lines", "Theme.config no longer emits `[styles]` + `name = str(style)` lines")
-    gens = [x for x in walk_local(cfgp.node) if isinstance(x, (ast.GeneratorExp, ast.ListComp))]
-    _sd206 = {k: v for k, v in _sdf(cfgp.node).items()}
-    okg = len(gens) == 1 and len(gens[0].generators) == 1 and not gens[0].generators[0].ifs and norm(_inl(gens[0].generators[0].iter, _sd206)) in ("sorted(self.styles.items())", "self.styles.items()")
-    if not gens:
-        # loop form: for name, style in sorted(self.styles.items()): lines.append(f"{name} = {style}")  - one unconditional append per entry
-        loops = [x for x in walk_local(cfgp.node) if isinstance(x, ast.For) and norm(_inl(x.iter, _sd206)) in ("sorted(self.styles.items())", "self.styles.items()")]
-        okg = len(loops) == 1 and len(loops[0].body) == 1 and isinstance(loops[0].body[0], ast.Expr) and isinstance(loops[0].body[0].value, ast.Call) and norm(loops[0].body[0].value.func).endswith(".append") and not loops[0].orelse
-        gens = loops
-    ctx.check(okg, cfgp.fq, short(gens[0]) if gens else "?", cfgp.where, "config lists every entry of self.styles (no filter)",
-              "Theme.config does not emit every (name, style) of self.styles (filtered or different source): entries such as null styles are missing from the text, so reading it back gives a theme with different styles")
+    # every entry is listed: the items iterated are self.styles.items() behind order-only wrappers (sorted / list / tuple / reversed,
+    # a temporary that is only sorted or reversed in place); a filter (comprehension `if`, filter()) is a violation
+    binds206 = {}
+    for x in walk_local(cfgp.node):
+        if isinstance(x, ast.Assign) and len(x.targets) == 1 and isinstance(x.targets[0], ast.Name):
+            binds206.setdefault(x.targets[0].id, []).append(x.value)
+    mut206 = {}
+    for c in walk_local(cfgp.node):
+        if isinstance(c, ast.Call) and isinstance(c.func, ast.Attribute) and isinstance(c.func.value, ast.Name):
+            mut206.setdefault(c.func.value.id, set()).add(c.func.attr)
+
+    def all_items(e, depth=0) -> str:
+        """'yes' / 'filtered' / 'unknown'"""
+        if depth > 6:
+            return "unknown"
+        if norm(e) == "self.styles.items()":
+            return "yes"
+        if isinstance(e, ast.Call) and norm(e.func) in ("sorted", "list", "tuple", "reversed", "iter") and e.args:
+            return all_items(e.args[0], depth + 1)
+        if isinstance(e, ast.Call) and norm(e.func) == "filter":
+            return "filtered"
+        if isinstance(e, (ast.ListComp, ast.GeneratorExp)) and len(e.generators) == 1:
+            g0 = e.generators[0]
+            if g0.ifs:
+                return "filtered" if all_items(g0.iter, depth + 1) != "unknown" else "unknown"
+            if norm(e.elt) == norm(g0.target) or (isinstance(e.elt, ast.Tuple) and isinstance(g0.target, ast.Tuple) and [norm(q) for q in e.elt.elts] == [norm(q) for q in g0.target.elts]):
+                return all_items(g0.iter, depth + 1)
+            return "unknown"
+        if isinstance(e, ast.Name) and e.id in binds206:
+            if mut206.get(e.id, set()) - {"sort", "reverse", "items", "copy"}:
+                return "unknown"
+            rs = {all_items(v, depth + 1) for v in binds206[e.id]}
+            return "yes" if rs == {"yes"} else ("filtered" if "filtered" in rs else "unknown")
+        return "unknown"
+    gens = [x for x in walk_local(cfgp.node) if isinstance(x, (ast.GeneratorExp, ast.ListComp)) and len(x.generators) == 1 and isinstance(x.generators[0].target, ast.Tuple) and len(x.generators[0].target.elts) == 2]
+    loops206 = [x for x in walk_local(cfgp.node) if isinstance(x, ast.For) and isinstance(x.target, ast.Tuple) and len(x.target.elts) == 2]
+    verdicts = []
+    for x in gens:
+        verdicts.append(("filtered" if x.generators[0].ifs else all_items(x.generators[0].iter), x))
+    for x in loops206:
+        v_ = all_items(x.iter)
+        if v_ == "yes" and not (len(x.body) == 1 and isinstance(x.body[0], ast.Expr) and isinstance(x.body[0].value, ast.Call) and norm(x.body[0].value.func).endswith(".append") and not x.orelse):
+            v_ = "unknown" if not any(isinstance(y, (ast.If, ast.Continue, ast.Break)) for b_ in x.body for y in ast.walk(b_)) else "filtered"
+        verdicts.append((v_, x))
+    if any(v_ == "filtered" for v_, _x in verdicts):
+        bad_ = next(x for v_, x in verdicts if v_ == "filtered")
+        ctx.violation(cfgp.fq, short(bad_), cfgp.where, "Theme.config does not emit every (name, style) of self.styles (a filter sits between the styles and the text): entries such as null styles are missing from the text, so reading it back gives a theme with different styles")
+    elif any(v_ == "yes" for v_, _x in verdicts):
+        ctx.ok(cfgp.where, "config lists every entry of self.styles (no filter)", cfgp.fq)
+    else:
+        raise AnalysisError("Theme.config: the entries written are not read off self.styles.items() in a form this rule follows")
     ff = th.method("from_file")
     # the theme is built from the parsed styles AND the caller's inherit flag (else inherit=False themes come back with the defaults merged in)
     from ..astutil import inline as _inl2, single_defs as _sdf2
